@@ -28,35 +28,55 @@ def extract(g, X):
         fm = re.search(r"\bfor\s*&\(&\w+[^{]*\{", b)
         loop = X.item_body(b[fm.start():], r"\{", "loop over the changes")
         after = b[fm.start() + b[fm.start():].index(loop) + len(loop):]
-        hdr = re.search(r'writeln!\(self\.backend,\s*"([^"]*)",\s*\w+,\s*\w+\)', loop).group(1)
-        end = re.search(r'\w+\.serialize\(&mut self\.backend\)\?;\s*writeln!\(self\.backend,\s*"([^"]*)"\)', loop).group(1)
+        # what is written: every write!/writeln! to the backend, holes normalised (`{}` + argument = inline `{id}`), the newline
+        # of writeln! made explicit (so `write!(.., "x\n")` = `writeln!(.., "x")`)
+        loop_at = fm.start() + b[fm.start():].index(loop)
+        calls = [c for c in X.fmt_calls(b) if c["dest"] == "self.backend"]
+        in_loop = [c for c in calls if loop_at <= c["pos"] < loop_at + len(loop)]
+        after_loop = [c for c in calls if c["pos"] >= loop_at + len(loop)]
+
+        def after_serialize(c):
+            return bool(re.search(r"\w+\.serialize\(&mut self\.backend\)\?;\s*$", b[:c["pos"]]))
+        (hdr,) = [c for c in in_loop if len(c["holes"]) == 2]
+        (end,) = [c for c in in_loop if not c["holes"] and after_serialize(c)]
         rel = 1 if re.search(r"let\s+\w+\s*=\s*self\.backend\.len\(\)\s*-\s*self\.start_offset\s*;", loop) else 0
         xrel = 1 if re.search(r"^\s*\}\s*let\s+\w+\s*=\s*self\.backend\.len\(\)\s*-\s*self\.start_offset\s*;", after) else 0
         # the id of the cross-reference stream object: `<promise>.get_inner().id`, spelled out or held in a local
         loc = re.search(r"let\s+(\w+)\s*=\s*\w+\.get_inner\(\)\.id\s*;", b)
         xid = r"(?:\w+\.get_inner\(\)\.id" + ("|" + loc.group(1) if loc else "") + ")"
-        xhdr = re.search(r'writeln!\(self\.backend,\s*"([^"]*)",\s*' + xid + r',\s*0\)', b).group(1)
-        xend = re.findall(r'\w+\.serialize\(&mut self\.backend\)\?;\s*writeln!\(self\.backend,\s*"([^"]*)"\)', b)[-1]
-        tail = re.search(r'write!\(self\.backend,\s*"([^"]*)",\s*\w+\)', b).group(1)
+        (xhdr,) = [c for c in after_loop if len(c["holes"]) == 2 and re.fullmatch(xid, c["holes"][0][0]) and c["holes"][1][0] == "0"]
+        xend = [c for c in after_loop if not c["holes"] and after_serialize(c)][-1]
+        (tail,) = [c for c in after_loop if len(c["holes"]) == 1]
         wsz = re.search(r"write_stream\(\s*" + xid + r"\s+as\s+usize\s*\+\s*(\d+)\s*\)", b).group(1)
-        pre, post = tail.split("{}")
-        # "{} {} obj" + newline of writeln!
-        return (cbytes(rust_str(hdr.replace("{}", "")) + b"\n"), cbytes(rust_str(end) + b"\n"), str(rel), str(xrel),
-                cbytes(rust_str(xhdr.replace("{}", "")) + b"\n"), cbytes(rust_str(xend) + b"\n"),
-                cbytes(rust_str(pre)), cbytes(rust_str(post)), wsz)
+        pre, post = X.fmt_split(tail)
+        joined = lambda c: [x for piece in X.fmt_split(c) for x in piece]
+        return (cbytes(joined(hdr)), cbytes(X.fmt_literal(end)), str(rel), str(xrel),
+                cbytes(joined(xhdr)), cbytes(X.fmt_literal(xend)), cbytes(pre), cbytes(post), wsz)
     g.attempt([("sto_obj_header_fmt", "list N"), ("sto_obj_end", "list N"), ("sto_pos_relative", "N"), ("sto_xpos_relative", "N"),
                ("sto_xobj_header_fmt", "list N"), ("sto_xobj_end", "list N"), ("sto_tail_pre", "list N"), ("sto_tail_post", "list N"),
                ("sto_write_stream_plus", "N")], "file.rs:write_revision", revision_literals)
 
     def rollback():
         b = X.fn_body(file_rs, "save")
-        m = re.search(r"if\s+let\s+Err\((\w+)\)\s*=\s*self\.write_revision\(&\w+\)\s*\{(.*?)return\s+Err\(\1\);", b, flags=re.S)
-        if not m:
+        # a failed write_revision is undone before the error is handed on: the `Err(e)` arm of `match` / `if let Err(e) = …`
+        ws = re.search(r"self\.write_revision\(&\w+\)", b)
+        if not ws:
             return "0"
-        t1 = re.search(r"self\.backend\.truncate\((\w+)\);", m.group(2))
-        t2 = re.search(r"self\.refs\.truncate\((\w+)\);", m.group(2))
+        try:
+            arms = [a for a in X.match_arms(b, r"self\.write_revision\(&\w+\)") if re.fullmatch(r"Err\(\s*\w+\s*\)", a.pattern)]
+        except KeyError:
+            return "0"
+        if len(arms) != 1 or arms[0].guard is not None:
+            return "0"
+        e = re.fullmatch(r"Err\(\s*(\w+)\s*\)", arms[0].pattern).group(1)
+        blk = arms[0].expr
+        if not re.search(r"return\s+Err\(\s*" + e + r"\s*\)\s*;?\s*$", blk):
+            return "0"
+        t1 = re.search(r"self\.backend\.truncate\((\w+)\);", blk)
+        t2 = re.search(r"self\.refs\.truncate\((\w+)\);", blk)
         if not (t1 and t2):
             return "0"
+        m = ws
         head = b[:m.start()]
         d1 = re.search(r"let\s+" + t1.group(1) + r"\s*=\s*self\.backend\.len\(\);", head)
         d2 = re.search(r"let\s+" + t2.group(1) + r"\s*=\s*self\.refs\.len\(\);", head)
@@ -113,7 +133,7 @@ def extract(g, X):
             raise ValueError("the widths are not (second field, third field) of max_field_widths()")
         w = re.search(r"\bw\s*:\s*vec!\[\s*(\d+)\s*,\s*" + aw + r"\s*,\s*" + bw + r"\s*\]", b).group(1)
         im = re.search(r"\bindex\s*:\s*vec!\[\s*(\d+)\s*,\s*([^\],]+?)\s*\]", b)
-        if not X.is_alias(im.group(2), size, b):
+        if not X.is_alias(im.group(2), size, b, param=True):
             raise ValueError("/Index does not end with the size")
         sl = []
         for m in re.finditer(r"(\w+)(\.to_be_bytes\(\))?\s*\[\s*(\d+)\s*-\s*(\w+)\s*\.\.\s*\]", b):
@@ -141,7 +161,7 @@ def extract(g, X):
         try:
             arm = X.match_arms(b, r"self\.changes\.get\(\s*&\w+\.id\s*\)")[0]
             pm = re.fullmatch(r"Some\(\s*\(\s*(\w+)\s*,\s*_\s*\)\s*\)", arm.pattern)
-            first = bool(pm and re.fullmatch(r"(?:return\s+)?Ok\(\s*\(\s*\*" + pm.group(1) + r"\s*\)\.clone\(\)\s*\)\s*;?", arm.expr)
+            first = bool(pm and arm.guard is None and re.fullmatch(r"(?:return\s+)?Ok\(\s*(?:\(\s*\*" + pm.group(1) + r"\s*\)|" + pm.group(1) + r")\.clone\(\)\s*\)\s*;?", arm.expr)
                          and b.index("self.changes.get(") < b.index("self.refs.get("))
         except (KeyError, ValueError):
             first = False
